@@ -28,7 +28,7 @@ def gen_case(rng):
     kb, kk = rng.randint(0, 3), rng.randint(0, 2)
     inline_b = rng.randint(0 if kb else 1, 2)
     inline_k = rng.randint(0, 2)
-    case = {'shape': [H, W, D], 'n': n, 'boxes': boxes, 'kps': kps, 'seed': rng.randint(0, 10 ** 6),
+    case = {'shape': [H, W, D], 'n': n, 'boxes': boxes, 'kps': kps, 'seed': R.pick_seed(rng),
             'box_fields': {'bf%d' % f: [label_value(rng, i, f) for i in range(n)] for f in range(kb)},
             'kp_fields': {'kf%d' % f: [label_value(rng, i, 5 + f) for i in range(n)] for f in range(kk)},
             'inline_b': [[('ib', i, j) for j in range(inline_b)] for i in range(n)],
@@ -78,7 +78,7 @@ def check(case, viol):
     elif add:
         # with declared label fields the additional targets share them (documented limitation, known finding)
         return
-    random.seed(case['seed'])
+    R.seed(case['seed'])
     try:
         res = pipe(**data)
     except Exception as e:  # noqa
